@@ -17,7 +17,8 @@ EXPLANATION = (
     "returned only under `avail >= 1` for that pool's entry of the per-round CPU snapshot, the entry is decremented by 1 on that "
     "path, and the snapshot is rebuilt every round as {pool.pool_id: pool.avail_cpu_pool for every pool}.  (3) abandonment: an "
     "operator is offered to try_make_assignment only if its pipeline's failure count < MAX_FAILURES, MAX_FAILURES is the literal "
-    "3, and the count is incremented exactly once per failed result.  (4) queueing: the operators queued are "
+    "3, the count is incremented exactly once per failed result and has no other writer in the package (a running total: never reset, "
+    "popped, cleared or decremented).  (4) queueing: the operators queued are "
     "get_ops(ASSIGNABLE_STATES, require_parents_complete=True) of every arrived pipeline and every pipeline with a result, minus "
     "the ids currently in the queue (recomputed from the queue each round); when capacity runs out the queue keeps exactly the "
     "unplaced suffix (index taken from enumerating the queue itself), otherwise it is emptied.  (5) no Suspend is constructed.")
